@@ -58,10 +58,13 @@ class World:
     def __init__(self):
         n = next(_uid)
         self.n = n
-        self.A = type(f"A_{n}", (), {"__slots__": ("x", "y")})
-        self.B = type(f"B_{n}", (self.A,), {"__slots__": ()})
+        self.A = type(f"A_{n}", (), {})          # no __slots__: the classes themselves must not have x / y
+        self.B = type(f"B_{n}", (self.A,), {})
         self.oa = self.A()
         self.ob = self.B()
+        self.oa.x = 1                 # Semantics.tla: oa.x = 1, ob.x = "a", ob.y = oa
+        self.ob.x = "a"
+        self.ob.y = self.oa
 
         class USeq(cabc.Sequence):
             __slots__ = ("_it",)
@@ -277,7 +280,39 @@ class World:
         if k == "items":
             kk, vv = self.hint(a[0], sp), self.hint(a[1], sp)
             return T.ItemsView[kk, vv] if sp % 2 else cabc.ItemsView[kk, vv]
+        if k == "ann":
+            base = self.hint(a[0], 0)
+            vals = tuple(self.validator(v) for v in h["m"])
+            return T.Annotated[(base,) + vals]
         raise KeyError(k)
+
+    # --------------------------------------------------------------- validators
+    def validator(self, v, leaves=None):
+        """Abstract validator -> beartype.vale object (rebuilt from scratch on every call).
+        ``leaves`` collects (repr(real leaf), real leaf) for the factory-level sub-validators."""
+        from beartype.vale import Is, IsAttr, IsEqual, IsInstance, IsSubclass
+        k = v["k"]
+        if k == "is":
+            out = Is[_PREDS[v["n"]]]
+        elif k == "isattr":
+            out = IsAttr[v["n"], self.validator(v["a"][0], None)]
+        elif k == "iseq":
+            out = IsEqual[self.atom(v["o"][0])]
+        elif k == "isinst":
+            out = IsInstance[self.classes[v["n"]]]
+        elif k == "issub":
+            out = IsSubclass[self.classes[v["n"]]]
+        elif k == "and":
+            return self.validator(v["a"][0], leaves) & self.validator(v["a"][1], leaves)
+        elif k == "or":
+            return self.validator(v["a"][0], leaves) | self.validator(v["a"][1], leaves)
+        elif k == "not":
+            return ~self.validator(v["a"][0], leaves)
+        else:
+            raise KeyError(k)
+        if leaves is not None:
+            leaves.append((repr(out), out))
+        return out
 
     def _typevar(self, bound=None, constraints=None):
         self._tv += 1
@@ -287,6 +322,22 @@ class World:
         if bound is not None:
             return typing.TypeVar(name, bound=bound)
         return typing.TypeVar(name)
+
+
+# Is[...] predicates: total, side-effect free, named functions, one per source line
+def _p_truthy(x):
+    return bool(x)
+
+
+def _p_isstr(x):
+    return isinstance(x, str)
+
+
+def _p_sized1(x):
+    return isinstance(x, (list, tuple, dict, set, frozenset)) and len(x) == 1
+
+
+_PREDS = {"truthy": _p_truthy, "isstr": _p_isstr, "sized1": _p_sized1}
 
 
 def _never():
@@ -327,11 +378,30 @@ def short_hint(h) -> str:
         return "tuple[" + (",".join(short_hint(c) for c in a) or "()") + "]"
     if k == "type":
         return "type[" + short_hint(a[0]) + "]"
+    if k == "ann":
+        return "Annotated[" + short_hint(a[0]) + "," + ",".join(short_val(v) for v in h["m"]) + "]"
     if k == "shallow":
         return s + "[..]"
     if s == "tuple":
         return "tuple[" + short_hint(a[0]) + ",...]"
     return s + "[" + ",".join(short_hint(c) for c in a) + "]"
+
+
+def short_val(v) -> str:
+    k = v["k"]
+    if k == "is":
+        return "Is[" + v["n"] + "]"
+    if k == "isattr":
+        return "IsAttr[" + v["n"] + "," + short_val(v["a"][0]) + "]"
+    if k == "iseq":
+        return "IsEqual[" + short_obj(v["o"][0]) + "]"
+    if k == "isinst":
+        return "IsInstance[" + v["n"] + "]"
+    if k == "issub":
+        return "IsSubclass[" + v["n"] + "]"
+    if k == "not":
+        return "~(" + short_val(v["a"][0]) + ")"
+    return "(" + short_val(v["a"][0]) + (" & " if k == "and" else " | ") + short_val(v["a"][1]) + ")"
 
 
 def short_obj(o) -> str:
